@@ -14,7 +14,10 @@ package main
 //        W:<lock>  write lock held      R:<lock>  read lock held        (sync.Mutex / sync.RWMutex globals;
 //                                                                        `defer X.Unlock()` keeps the lock to the end)
 //        O:<once>  inside the body passed to <once>.Do                   A:<once>  after <once>.Do(...) returned
-//        I:<func>  after a call to the init-like function <func> returned (configured below)
+//     an "init-like" function (configured below: openapi.initSchema — lock; if !flag { flag = true; parse... })
+//     is treated like a once object named after the function: O:<func> inside it (and in what it calls),
+//     A:<func> after a call to it returned. That the flag is never cleared is a separate side condition:
+//     the value stored is recorded for constant stores so that the Coq obligation can list the "reset sites";
 //     joins are intersections; the entry context of a function is the intersection of the contexts of
 //     all its call sites in functions reachable from the roots (callers outside the kustomize module
 //     contribute the empty context);
@@ -47,6 +50,7 @@ type gAccess struct {
 	ctx        []string
 	reach      bool
 	ord        int
+	val        string // constant stored (AWrite of a constant), "" otherwise
 	pos        token.Pos
 }
 
@@ -250,7 +254,7 @@ func (ga *globalsAnalysis) transfer(ctx tokset, ins ssa.Instruction) {
 	}
 	if callee := call.Call.StaticCallee(); callee != nil {
 		if id, ok := ga.initLike[callee]; ok {
-			ctx["I:"+id] = true
+			ctx["A:"+id] = true
 		}
 	}
 }
@@ -548,6 +552,66 @@ func genGlobals(repo string) (string, error) {
 			ga.entry[f] = tokset{}
 		}
 	}
+	// propagate "inside the init-like function" to it and to what it calls: one more round of the same
+	// fixpoint with O:<id> injected at the entry of the init-like functions
+	for iter := 0; iter < 50; iter++ {
+		changed := false
+		for f, id := range ga.initLike {
+			if !ga.entry[f]["O:"+id] {
+				ga.entry[f] = ga.entry[f].clone()
+				ga.entry[f]["O:"+id] = true
+				changed = true
+			}
+		}
+		site := map[ssa.Instruction]tokset{}
+		for _, f := range ga.funcs {
+			ga.flow(f, ga.entry[f], func(ins ssa.Instruction, ctx tokset) {
+				switch ins.(type) {
+				case *ssa.Call:
+					site[ins] = ctx.clone()
+				}
+			})
+		}
+		for _, f := range ga.funcs {
+			if ga.foreignIn[f] || !ga.reach[f] || len(ga.callers[f]) == 0 {
+				continue
+			}
+			if _, isInit := ga.initLike[f]; isInit {
+				continue
+			}
+			if _, isOnce := ga.onceBody[f]; isOnce {
+				continue
+			}
+			var acc tokset
+			all := true
+			for _, cs := range ga.callers[f] {
+				c, ok := site[cs.instr]
+				if !ok {
+					all = false
+					break
+				}
+				if acc == nil {
+					acc = c.clone()
+				} else {
+					acc = intersect(acc, c)
+				}
+			}
+			if !all || acc == nil {
+				continue
+			}
+			// only the O: tokens of init-like functions are added here
+			for k := range acc {
+				if strings.HasPrefix(k, "O:") && !ga.entry[f][k] {
+					ga.entry[f] = ga.entry[f].clone()
+					ga.entry[f][k] = true
+					changed = true
+				}
+			}
+		}
+		if !changed {
+			break
+		}
+	}
 
 	// ---- which globals are mutable
 	type gkey struct{ pkg, name string }
@@ -596,6 +660,15 @@ func genGlobals(repo string) (string, error) {
 			case *ssa.Store:
 				if g, p, ok := globalPath(x.Addr); ok && strings.HasPrefix(g.Pkg.Pkg.Path(), kustModPrefix) {
 					emit(ins, ctx, g, p, "AWrite")
+					if c, ok := x.Val.(*ssa.Const); ok {
+						v := "nil"
+						if c.Value != nil {
+							v = c.Value.ExactString()
+						} else if _, isStruct := c.Type().Underlying().(*types.Struct); isStruct {
+							v = "zero"
+						}
+						rows[len(rows)-1].val = v
+					}
 				}
 				if g, p, ok := globalPath(x.Val); ok && strings.HasPrefix(g.Pkg.Pkg.Path(), kustModPrefix) {
 					emit(ins, ctx, g, p, "AEscape")
@@ -852,13 +925,13 @@ func genGlobals(repo string) (string, error) {
 		for j, c := range r.ctx {
 			ctx[j] = coqStr(c)
 		}
-		fmt.Fprintf(&b, "  mkAcc %s %s %s %s %d%%N [%s] %s%s\n", coqStr(shortPkg(r.pkg)), coqStr(r.fn), coqStr(r.v), r.kind, r.ord,
-			strings.Join(ctx, "; "), coqBool(r.reach), sep)
+		fmt.Fprintf(&b, "  mkAcc %s %s %s %s %d%%N [%s] %s %s%s\n", coqStr(shortPkg(r.pkg)), coqStr(r.fn), coqStr(r.v), r.kind, r.ord,
+			strings.Join(ctx, "; "), coqBool(r.reach), coqStr(r.val), sep)
 	}
 	b.WriteString("].\n")
 	if os.Getenv("VERIF_GLOBALS_DEBUG") != "" {
 		for _, r := range out {
-			fmt.Fprintf(os.Stderr, "%-40s %-45s %-55s %-10s #%d %v reach=%v %s\n", shortPkg(r.pkg), r.fn, r.v, r.kind, r.ord, r.ctx, r.reach, prog.Fset.Position(r.pos))
+			fmt.Fprintf(os.Stderr, "%-40s %-45s %-55s %-10s #%d %v reach=%v val=%q %s\n", shortPkg(r.pkg), r.fn, r.v, r.kind, r.ord, r.ctx, r.reach, r.val, prog.Fset.Position(r.pos))
 		}
 	}
 	return b.String(), nil
